@@ -1142,3 +1142,138 @@ def line_writer_contract(qual, fragment, lists, which=0, mode="w", rank0=True, i
     c.loop_select = loop_select
     c.region_name = "writer of %s (%s)" % (fragment, " + ".join(lists))
     return c
+
+
+# ------------------------------------------------------------------------------ labels_to_shape (C18, C20)
+def labels_to_shape_contract():
+    """labels_to_shape(labels, basis_functions), basis_functions = [nullary, unary, binary] with pairwise disjoint classes:
+    on return s has one entry per label; s[p] = c when labels[p] is an operator of class c; s[p] = 0 when labels[p] is in no class and is parameter-like
+    ('a' followed by digits) or a number (generator.is_float).  ValueError escapes only when some label is in no class and is neither.
+    The dictionary built by the first loop is described with two ghost-free facts plus a ghost witness (the position inside its class at which a key was stored)."""
+    from pyvc.engine import LoopSpec
+    from pyvc.values import HSeq, HDict, VConc
+    I = z3.IntSort()
+    BC = z3.Function("basis.label", I, I, Label)          # label k of class c
+    BL = z3.Function("basis.len", I, I)
+    GT = T("ghostfn", Label, I)
+
+    def PARAMLIKE(t):
+        """the code's test: t.startswith('a') and t[1:].isdigit()"""
+        return z3.And(z3.Function("str.startswith:a", Label, z3.BoolSort())(t), z3.Function("str.isdigit", Label, z3.BoolSort())(M.STRTAIL(t, z3.IntVal(1))))
+
+    def mk_basis(eng, st):
+        rows = [st.alloc(HSeq(BL(z3.IntVal(c)), (lambda k, c=c: VLabel(BC(z3.IntVal(c), k))), etype=T.label)) for c in range(3)]
+        return eng.mk_list(rows, st)
+
+    def dict_of(S):
+        return S.st.heap[S.var("basis_dict").addr]
+
+    def wk(S):
+        return S.var("__wk").obj
+
+    def dict_facts(S, c_done, k_done, cls):
+        """classes < c_done are stored completely, of class cls == c_done the first k_done entries"""
+        d = dict_of(S)
+        s_ = z3.Const("s!ls", Label)
+        c_, k_ = z3.Ints("c!ls k!ls")
+        W = wk(S)
+        return [("every key was stored for one of the entries handled so far: its value is that entry's class, the ghost its position",
+                 z3.ForAll([s_], z3.Implies(d.has(s_), z3.And(0 <= d.val(s_).t, d.val(s_).t <= cls, d.val(s_).t < 3, 0 <= W(s_), W(s_) < BL(d.val(s_).t),
+                                                             BC(d.val(s_).t, W(s_)) == s_, z3.Implies(d.val(s_).t == c_done, W(s_) < k_done))))),
+                ("every entry handled so far is a key",
+                 z3.ForAll([c_, k_], z3.Implies(z3.And(0 <= c_, c_ < 3, 0 <= k_, k_ < BL(c_), z3.Or(c_ < c_done, z3.And(c_ == c_done, k_ < k_done))), d.has(BC(c_, k_))), patterns=[BC(c_, k_)]))]
+
+    def inv_inner(S, st):
+        i = S.var("i")
+        if not isinstance(i, VInt):
+            raise Unsupported("loop variable of the class loop")
+        return dict_facts(S, i.t, S.i(S.var("__i")), i.t)
+
+    def on_store(S, st):
+        """ghost update after `basis_dict[f] = i`: the key was stored for position __i of class i"""
+        old = S.var("__wk").obj
+        key = S.var("f").t
+        pos = S.i(S.var("__i1")) if "__i1" in st.env else S.i(S.var("__i"))
+        g = VConc("ghostfn", lambda q, old=old, key=key, pos=pos: z3.If(q == key, pos, old(q)))
+        g.gtype = GT
+        st.env["__wk"] = g
+
+    def ival(v):
+        """(is an int, its term) of a list entry that may still be None"""
+        from pyvc.values import VMaybeNone, VBool
+        if isinstance(v, VInt):
+            return z3.BoolVal(True), v.t
+        if isinstance(v, VMaybeNone) and isinstance(v.val, VInt):
+            return z3.Not(v.isnone), v.val.t
+        if isinstance(v, VNone):
+            return z3.BoolVal(False), z3.IntVal(0)
+        raise Unsupported("entry of s: %r" % (v,))
+
+    def spec_entry(S, lab, val):
+        """val is the arity class of label lab"""
+        d_c, d_k = z3.Ints(fresh_name("c!sk") + " " + fresh_name("k!sk"))
+        inb = INB(lab)
+        return z3.And(z3.Implies(z3.And(0 <= d_c, d_c < 3, 0 <= d_k, d_k < BL(d_c), BC(d_c, d_k) == lab), val == d_c),
+                      z3.Implies(z3.Not(inb), z3.And(val == 0, z3.Or(PARAMLIKE(lab), M.ISFLOAT(lab)))))
+
+    INB = z3.Function("basis.has", Label, z3.BoolSort())
+    WC, WKK = z3.Function("basis.wc", Label, I), z3.Function("basis.wk", Label, I)
+
+    def inv_labels(S, st):
+        i = S.i(S.var("__i"))
+        L = S.seq(S.eng.args0["labels"])
+        sv = S.seq(S.var("s"))
+        p = z3.Int("p!ls")
+        d = dict_of(S)
+        out = dict_facts(S, z3.IntVal(3), z3.IntVal(0), z3.IntVal(2))
+        out.append(("one slot per label", sv.len == L.len))
+        out.append(("the entries already written are the arity classes of their labels",
+                    z3.ForAll([p], z3.Implies(z3.And(0 <= p, p < i), z3.And(
+                        ival(sv.get(p))[0],
+                        z3.Implies(d.has(L.get(p).t), ival(sv.get(p))[1] == d.val(L.get(p).t).t),
+                        z3.Implies(z3.Not(d.has(L.get(p).t)), z3.And(ival(sv.get(p))[1] == 0, z3.Or(PARAMLIKE(L.get(p).t), M.ISFLOAT(L.get(p).t)))))))))
+        return out
+
+    def requires(S, a):
+        c_, c2, k_, k2 = z3.Ints("c!rq c2!rq k!rq k2!rq")
+        return [("the three classes are pairwise disjoint; lengths are non-negative",
+                 z3.And(BL(z3.IntVal(0)) >= 0, BL(z3.IntVal(1)) >= 0, BL(z3.IntVal(2)) >= 0,
+                        z3.ForAll([c_, c2, k_, k2], z3.Implies(z3.And(0 <= c_, c_ < c2, c2 < 3, 0 <= k_, k_ < BL(c_), 0 <= k2, k2 < BL(c2)), BC(c_, k_) != BC(c2, k2)))))]
+
+    def setup(eng, st, args):
+        st.env["__wk"] = eng.fresh(GT, "WK", st)
+        eng.empty_dict_literal = (T.label, T.int, lambda: VInt(0))
+        eng.keyerror_paths = True
+        # `label is an operator of the basis` as a predicate with Skolem witnesses (a conservative definition of the existential)
+        s_ = z3.Const("s!ax", Label)
+        c_, k_ = z3.Ints("c!ax k!ax")
+        eng.axioms.append(z3.ForAll([c_, k_], z3.Implies(z3.And(0 <= c_, c_ < 3, 0 <= k_, k_ < BL(c_)), INB(BC(c_, k_))), patterns=[BC(c_, k_)]))
+        eng.axioms.append(z3.ForAll([s_], z3.Implies(INB(s_), z3.And(0 <= WC(s_), WC(s_) < 3, 0 <= WKK(s_), WKK(s_) < BL(WC(s_)), BC(WC(s_), WKK(s_)) == s_)), patterns=[INB(s_)]))
+
+    def ensures(S, a, res):
+        if not isinstance(res, VRef):
+            return [("returns a list", z3.BoolVal(False))]
+        L, sv = S.seq(a["labels"]), S.seq(res)
+        p = z3.Int(fresh_name("p!sk"))
+        return [("one entry per label", sv.len == L.len),
+                ("entry p is the arity class of label p (0 for a parameter or a number that is no operator of the basis)",
+                 z3.Implies(z3.And(0 <= p, p < L.len), z3.And(ival(sv.get(p))[0], spec_entry(S, L.get(p).t, ival(sv.get(p))[1]))))]
+
+    def raises(S, a, exc):
+        if exc != "ValueError":
+            return z3.BoolVal(False)
+        L = S.seq(a["labels"])
+        p = z3.Int(fresh_name("p!rs"))
+        eng = S.eng
+        # ValueError may escape only if a label exists that is in no class and is neither parameter-like nor a number (witness: the loop position)
+        i = S.var("i") if "i" in S.st.env else None
+        t = S.var("t") if "t" in S.st.env else None
+        if not isinstance(t, VLabel):
+            return z3.BoolVal(False)
+        return z3.And(z3.Not(INB(t.t)), z3.Not(PARAMLIKE(t.t)), z3.Not(M.ISFLOAT(t.t)))
+
+    ls1 = LoopSpec(inv_inner)
+    ls1.ghost = ["__wk"]
+    ls2 = LoopSpec(inv_labels, havoc_types={"s": T.list(T.opt(T.int))})
+    return Contract("labels_to_shape", {"labels": T.list(T.label), "basis_functions": mk_basis}, requires=requires, ensures=ensures, setup=setup,
+                    loops={1: ls1, 2: ls2}, hooks={"basis_dict[]": on_store}, raises=raises, may_raise=("ValueError",))
